@@ -7,7 +7,7 @@
 //   samp <u|n|g> <d|sub <k>> <n> <dist> <space> <centre>
 //       n draws of sampleUniform / sampleUniformNear / sampleGaussian from allocDefaultStateSampler()
 //       (or the SubspaceStateSampler of component k), satisfiesBounds of every output
-//       -> `n=<n> bad=<k> first=<state|->`                                            (implementation only)
+//       -> `n=<n> bad=<k> moved=<outputs differing from the centre> first=<state|->`   (implementation only)
 //   alias <n|g> <n> <dist> <space> <centre>
 //       alias-safety probe: the default sampler is called with state == near (the SAME pointer), as
 //       SubspaceStateSampler-like code and multilevel/GraphSampler.cpp (`sampleUniformNear(xRandom, xRandom, eps)`) do;
@@ -426,10 +426,14 @@ int main()
                     }
                     // the part of `st` outside the subspace keeps this (in-bounds) content
                     sp->copyState(st, centre);
+                    // SubspaceStateSampler copies by substate NAME (copyStateData): without the location tables
+                    // (normally built by setup(); setup() itself refuses zero-extent spaces) it would write nothing
+                    sp->computeLocations();
                     sampler = sp->allocSubspaceStateSampler(c->getSubspace((unsigned)sub));
                 }
-                unsigned long bad = 0;
+                unsigned long bad = 0, moved = 0;
                 std::string first = "-";
+                const std::string centreTxt = vp::showState(sp, centre);
                 for (unsigned long k = 0; k < n; ++k)
                 {
                     if (kind == "u")
@@ -438,6 +442,8 @@ int main()
                         sampler->sampleUniformNear(st, centre, dist);
                     else
                         sampler->sampleGaussian(st, centre, dist);
+                    if (vp::showState(sp, st) != centreTxt)
+                        ++moved;
                     if (!sp->satisfiesBounds(st))
                     {
                         if (bad == 0)
@@ -447,7 +453,7 @@ int main()
                 }
                 sp->freeState(st);
                 sp->freeState(centre);
-                std::cout << "n=" << n << " bad=" << bad << " first=" << first << "\n";
+                std::cout << "n=" << n << " bad=" << bad << " moved=" << moved << " first=" << first << "\n";
             }
             else if (op == "alias")
             {
@@ -566,6 +572,7 @@ int main()
                         sp->freeState(st);
                         throw vp::ParseError("sub");
                     }
+                    sp->computeLocations();   // SubspaceStateSampler copies by substate name (see `samp`)
                     sampler = sp->allocSubspaceStateSampler(c->getSubspace((unsigned)sub));
                 }
                 else if (which == "vss")
